@@ -3,9 +3,10 @@
 patch applies, library builds, the whole existing suite passes with it, the demo FAILS with the patch and PASSES without.
 Prints a JSON summary. Leaves the worktree clean."""
 import os, re, subprocess, sys, json, shutil
+SD = os.environ.get('SEEDDIR', '/tmp/seed')
 ID, X = sys.argv[1], sys.argv[2]
-wt = f"/tmp/seed/{ID}"
-out = f"/tmp/seed/{ID}.out/{X}"
+wt = f"{SD}/{ID}"
+out = f"{SD}/{ID}.out/{X}"
 env = dict(os.environ, GOFLAGS="-mod=mod", GOPROXY="off", GOSUMDB="off", GOTOOLCHAIN="local")
 def sh(cmd, cwd=wt, timeout=1500):
     p = subprocess.run(cmd, shell=True, executable="/bin/bash", cwd=cwd, env=env, capture_output=True, text=True, timeout=timeout)
